@@ -125,19 +125,26 @@ pub(crate) mod gen {
     /// Parameter sets. All use SecurityLevel::None (tiny parameters). The internal auxiliary primes
     /// (B, m_sk, gamma: 61 bits; m_tilde = 2^32) are whatever the real `RNSTool::new` picks.
     pub(crate) const SETS: &[PSet] = &[
-        // N=2
-        PSet { name: "bfv_n2_q13_t3",      scheme: SchemeType::BFV,  n: 2, q: &[13],        t: 3,  expand: true, special: false },
-        PSet { name: "bfv_n2_q13_17_29_t5", scheme: SchemeType::BFV, n: 2, q: &[13, 17, 29], t: 5, expand: true, special: false },
-        PSet { name: "bgv_n2_q13_17_29_t5", scheme: SchemeType::BGV, n: 2, q: &[13, 17, 29], t: 5, expand: true, special: false },
-        PSet { name: "ckks_n2_q13_17_29",   scheme: SchemeType::CKKS, n: 2, q: &[13, 17, 29], t: 0, expand: true, special: false },
-        PSet { name: "bfv_n2_q5_13_t17",    scheme: SchemeType::BFV, n: 2, q: &[5, 13, 29],  t: 17, expand: true, special: false }, // t > some q_i: no fast plain lift
-        // N=4
-        PSet { name: "bfv_n4_q17_t16",     scheme: SchemeType::BFV,  n: 4, q: &[17],        t: 16, expand: true, special: false },
-        PSet { name: "bfv_n4_q41_97_t17",  scheme: SchemeType::BFV,  n: 4, q: &[41, 97, 113], t: 17, expand: true, special: false },
-        PSet { name: "bgv_n4_q41_97_t17",  scheme: SchemeType::BGV,  n: 4, q: &[41, 97, 113], t: 17, expand: true, special: false },
-        PSet { name: "ckks_n4_q41_97",     scheme: SchemeType::CKKS, n: 4, q: &[41, 97, 113], t: 0, expand: true, special: false },
-        // N=8 (batching t=17)
-        PSet { name: "bfv_n8_q97_193_t17", scheme: SchemeType::BFV,  n: 8, q: &[97, 193, 257], t: 17, expand: true, special: false },
+        // primes > 42 so that error samples (|e| <= 21) are canonical residues; all residues fit a u8.
+        // "_1p": one prime, one level.  "_2p1": two primes, ONE level (special-prime-for-encryption flag: key level = data level).
+        // unsuffixed: three primes, full chain of 3 levels (key {97,113,193}, first {97,113}, last {97}).
+        PSet { name: "bfv_n2_1p",     scheme: SchemeType::BFV,  n: 2, q: &[97],            t: 3,   expand: true, special: false },
+        PSet { name: "bfv_n2_2p1",    scheme: SchemeType::BFV,  n: 2, q: &[97, 113],       t: 17,  expand: true, special: true },
+        PSet { name: "bgv_n2_2p1",    scheme: SchemeType::BGV,  n: 2, q: &[97, 113],       t: 17,  expand: true, special: true },
+        PSet { name: "ckks_n2_2p1",   scheme: SchemeType::CKKS, n: 2, q: &[97, 113],       t: 0,   expand: true, special: true },
+        PSet { name: "bfv_n2_nolift", scheme: SchemeType::BFV,  n: 2, q: &[97, 113],       t: 101, expand: true, special: true },  // t > q_0: no fast plain lift
+        PSet { name: "bfv_n2_pow2t",  scheme: SchemeType::BFV,  n: 2, q: &[113, 97],       t: 16,  expand: true, special: true },  // t = 2^k, non-ascending order
+        PSet { name: "bfv_n2",        scheme: SchemeType::BFV,  n: 2, q: &[97, 113, 193],  t: 17,  expand: true, special: false },
+        PSet { name: "bgv_n2",        scheme: SchemeType::BGV,  n: 2, q: &[97, 113, 193],  t: 17,  expand: true, special: false },
+        PSet { name: "ckks_n2",       scheme: SchemeType::CKKS, n: 2, q: &[97, 113, 193],  t: 0,   expand: true, special: false },
+        PSet { name: "bfv_n2_4p",     scheme: SchemeType::BFV,  n: 2, q: &[97, 113, 193, 241], t: 17, expand: true, special: false }, // 4 levels
+        // N=4 (q = 1 mod 8), batching t = 17
+        PSet { name: "bfv_n4_2p1",    scheme: SchemeType::BFV,  n: 4, q: &[97, 113],       t: 17,  expand: true, special: true },
+        PSet { name: "bgv_n4_2p1",    scheme: SchemeType::BGV,  n: 4, q: &[97, 113],       t: 17,  expand: true, special: true },
+        PSet { name: "ckks_n4_2p1",   scheme: SchemeType::CKKS, n: 4, q: &[97, 113],       t: 0,   expand: true, special: true },
+        PSet { name: "bfv_n4",        scheme: SchemeType::BFV,  n: 4, q: &[97, 113, 193],  t: 17,  expand: true, special: false },
+        // N=8 (q = 1 mod 16), batching t = 17
+        PSet { name: "bfv_n8_2p1",    scheme: SchemeType::BFV,  n: 8, q: &[97, 113],       t: 17,  expand: true, special: true },
     ];
 
     pub(crate) fn build(p: &PSet) -> Arc<HeContext> {
@@ -163,4 +170,77 @@ pub(crate) mod gen {
         crate::verif_v::write_gen("ctx.rs", &all);
         crate::verif_v::write_gen("ctx.json", &format!("[{}]", summary.join(",")));
     }
+}
+
+
+#[cfg(kani)]
+mod proofs {
+    use super::*;
+    use crate::verif_v::lits;
+
+    fn check_chain(ctx: &Arc<HeContext>, q: &[u64], t: u64, n: usize, levels: usize, key_is_first: bool) {
+        assert!(chain_len() == levels);
+        let key = chain_at(0);
+        assert!(*key.parms_id() == ctx.key_parms_id);
+        let first_idx = if key_is_first { 0 } else { 1 };
+        assert!(*chain_at(first_idx).parms_id() == ctx.first_parms_id);
+        assert!(*chain_at(levels - 1).parms_id() == ctx.last_parms_id);
+        assert!(ctx.using_keyswitching == !key_is_first);
+        let mut i = 0;
+        while i < levels {
+            let cd = chain_at(i);
+            let k = q.len() - i;                               // prefix moduli set of this level
+            assert!(cd.chain_index == levels - 1 - i);         // strictly decreasing, ending at 0
+            assert!(cd.parms.coeff_modulus.len() == k && cd.parms.poly_modulus_degree == n);
+            let mut j = 0; let mut prod: u128 = 1;
+            while j < k { assert!(cd.parms.coeff_modulus[j].value() == q[j]); prod *= q[j] as u128; j += 1; }
+            assert!(cd.qualifiers.parameters_set());
+            // doubly linked
+            match &cd.next_context_data { Some(nx) => { assert!(i + 1 < levels && nx.parms_id() == chain_at(i + 1).parms_id()); } None => { assert!(i + 1 == levels); } }
+            match cd.prev_context_data() { Some(pv) => { assert!(i >= 1 && pv.parms_id() == chain_at(i - 1).parms_id()); std::mem::forget(pv); } None => { assert!(i == 0); } }
+            // constants equal their definitions (products fit u128 here)
+            assert!(cd.total_coeff_modulus.len() == k && cd.total_coeff_modulus[0] as u128 == prod && (k < 2 || cd.total_coeff_modulus[1] == 0));
+            assert!(cd.total_coeff_modulus_bit_count == (128 - prod.leading_zeros()) as usize);
+            if t != 0 {
+                assert!(cd.plain_upper_half_threshold == (t + 1) >> 1);
+                assert!(cd.coeff_modulus_mod_plain_modulus as u128 == prod % t as u128);
+                let delta = prod / t as u128;
+                let mut j = 0;
+                while j < k {
+                    assert!(cd.coeff_div_plain_modulus[j].operand as u128 == delta % q[j] as u128);
+                    assert!(cd.upper_half_increment[j] as u128 == (prod % t as u128) % q[j] as u128);
+                    j += 1;
+                }
+            } else {
+                assert!(cd.plain_upper_half_threshold == 1u64 << 63);
+                assert!(cd.upper_half_threshold[0] as u128 == (prod + 1) >> 1);
+                let mut j = 0;
+                while j < k { assert!(cd.plain_upper_half_increment[j] as u128 == (q[j] as u128 - ((1u128 << 64) % q[j] as u128)) % q[j] as u128); j += 1; }
+            }
+            assert!(cd.small_ntt_tables.len() == k && cd.rns_tool.is_some() && cd.galois_tool.is_some());
+            std::mem::forget(cd);
+            i += 1;
+        }
+        std::mem::forget(key);
+    }
+
+    // @harness id=C13 tier=quick unwind=8 timeout=1800 fs=4096
+    // @desc for accepted parameters the chain built by the REAL HeContext::new is a doubly linked list of prefix moduli sets with strictly decreasing chain indices ending at 0, key/first/last ids consistent, and every level's precomputed constants equal their definitions (total modulus and bit count, floor(Q/t) and Q mod t in RNS form, (t+1)/2, CKKS thresholds and 2^64 increments)
+    // @bounds ground check (no symbolic input) of the regenerated literal chains: BFV {97,113,193} t=17 (3 levels), CKKS {97,113,193} (3 levels), BGV {97,113} special-prime flag (2 levels, key level = first level), BFV {97,113,193,241} (4 levels)
+    // @funcs HeContext::new, HeContext::validate, HeContext::create_next_context_data (through their regenerated literal output)
+    // @stubs HeContext::get_context_data -> linear search over the literal chain; alloc::sync::Arc::drop_slow -> no-op
+    #[kani::proof]
+    #[kani::stub(alloc::sync::Arc::drop_slow, crate::verif_v::arc_drop_slow_noop)]
+    fn c13_chain_wellformed_ground() {
+        let c: u8 = kani::any();
+        match c {
+            0 => { let ctx = lits::ctx_bfv_n2(); check_chain(&ctx, &[97, 113, 193], 17, 2, 3, false); std::mem::forget(ctx); }
+            1 => { let ctx = lits::ctx_ckks_n2(); check_chain(&ctx, &[97, 113, 193], 0, 2, 3, false); std::mem::forget(ctx); }
+            2 => { let ctx = lits::ctx_bgv_n2_2p1(); check_chain(&ctx, &[97, 113], 17, 2, 2, true); std::mem::forget(ctx); }
+            _ => { let ctx = lits::ctx_bfv_n2_4p(); check_chain(&ctx, &[97, 113, 193, 241], 17, 2, 4, false); std::mem::forget(ctx); }
+        }
+        kani::cover!(true);
+    }
+
+    #[cfg(test)] include!("/verif/.build/playback/context_v.rs");
 }
